@@ -207,7 +207,9 @@ class Beam(_Simu):
         # Lagrange path from the base class.
         beamStructure = self.structure
         all_unknowns = self.Get_unknowns(problemType)
-        hermitian = set(all_unknowns) - {"x", "rx"}
+        # every component goes through the beam shape functions: a load given in the
+        # global axes has axial and transverse parts on a member that is not along x
+        hermitian = set(all_unknowns)
         lagrange_idx = [i for i, u in enumerate(unknowns) if u not in hermitian]
         hermitian_idx = [i for i, u in enumerate(unknowns) if u in hermitian]
 
@@ -239,6 +241,13 @@ class Beam(_Simu):
         coord_e_pg = groupElem.Get_GaussCoordinates_e_pg(matrixType, elements)
         wJ_e_pg = groupElem.Get_weightedJacobian_e_pg(matrixType)[elements]
         N_e_pg = groupElem.Get_beam_N_e_pg(beamStructure)[elements]
+        # the rows of N are the displacements in the member axes; the load components
+        # are given in the global axes: rows -> global axes with the transpose of the
+        # (global -> local) block of the projection matrix
+        P_e = np.asarray(groupElem._Compute_P_e_pg(beamStructure))[
+            elements, 0, :dof_n, :dof_n
+        ]
+        N_e_pg = np.einsum("eji,epjn->epin", P_e, np.asarray(N_e_pg))
         N_lag_pg = groupElem.Get_N_pg(matrixType)[:, 0, :]
 
         # Ne * dof_n * nPe DOFs per element (Hermitian N couples force and moment DOFs)
